@@ -215,3 +215,122 @@ def atom_ucart(t):
 @target('C12', 'atomUeq', CELLP + UP, doc='Atom.ueq of an anisotropic atom', calls=['sqrt'], expect=PARSE_EVENTS)
 def atom_ueq(t):
     return list(read(t).atoms)[0].ueq
+
+
+# ---- histories on the parsed objects: what was asked before an edit must not survive the edit ----------------------------
+
+CELL2_LIT = dict(a='7.5202', b='11.2503', c='32.0104', alpha='81.55', beta='104.06', gamma='117.27')
+
+
+def set_cell2(t, shx):
+    """the placeholders of the SECOND cell carry the parameter names; the first cell's numbers become a1 … sg1 (they are
+    no parameters of the emitted definition: a result that still mentions them can not be written out)"""
+    import symtrace as st
+    for n, lit in CELL2_LIT.items():
+        v = t.literal(lit, n)
+        if n in ('alpha', 'beta', 'gamma'):
+            c, s = dict(alpha=('ca', 'sa'), beta=('cb', 'sb'), gamma=('cg', 'sg'))[n]
+            rad = st.mk('call', 'radians', v.node)
+            t.table[st.mk('call', 'cos', rad)] = st.mk('var', c)
+            t.table[st.mk('call', 'sin', rad)] = st.mk('var', s)
+    shx.cell.set('CELL 0.71073 ' + ' '.join(CELL2_LIT.values()))
+
+
+def read_first(t):
+    """read FILE with the numbers of its CELL line named a1 … (not parameters)"""
+    import symtrace as st
+    from shelxfile import Shelxfile
+    for n, lit in CELL_LIT.items():
+        v = t.literal(lit, n + '1')
+        if n in ('alpha', 'beta', 'gamma'):
+            c, s = dict(alpha=('ca1', 'sa1'), beta=('cb1', 'sb1'), gamma=('cg1', 'sg1'))[n]
+            rad = st.mk('call', 'radians', v.node)
+            t.table[st.mk('call', 'cos', rad)] = st.mk('var', c)
+            t.table[st.mk('call', 'sin', rad)] = st.mk('var', s)
+    for n, lit in XYZ_LIT.items():
+        t.literal(lit, n)
+    for n, lit in U_LIT.items():
+        t.literal(lit, n)
+    shx = Shelxfile()
+    shx.read_string(FILE)
+    return shx
+
+
+@target('C12', 'cellSetInversed', CELLP[:6] + ['sg'],
+        doc="cell.o.inversed.values after: read (another cell), cell.o.inversed asked, shx.cell.set('CELL … a b c α β γ')",
+        result_len=9, calls=['sqrt'], expect=PARSE_EVENTS)
+def cell_set_inversed(t):
+    shx = read_first(t)
+    shx.cell.o.inversed                     # asked for the first cell
+    shx.orthogonal_matrix.inversed
+    set_cell2(t, shx)
+    return shx.cell.o.inversed
+
+
+@target('C12', 'cellSetShxInversed', CELLP[:6] + ['sg'],
+        doc="shx.orthogonal_matrix.inversed.values after the same history", result_len=9, calls=['sqrt'], expect=PARSE_EVENTS)
+def cell_set_shx_inversed(t):
+    shx = read_first(t)
+    shx.orthogonal_matrix.inversed
+    shx.cell.o.inversed
+    set_cell2(t, shx)
+    return shx.orthogonal_matrix.inversed
+
+
+@target('C12', 'cellSetUeq', CELLP + UP,
+        doc="Atom.ueq after: read (another cell), ueq / cell.N / cell.o.inversed asked, shx.cell.set('CELL …')", calls=['sqrt'],
+        expect=PARSE_EVENTS)
+def cell_set_ueq(t):
+    shx = read_first(t)
+    a = list(shx.atoms)[0]
+    a.ueq, shx.cell.N, shx.cell.o.inversed, shx.cell.volume
+    set_cell2(t, shx)
+    return a.ueq
+
+
+# ---- displacement tensors whose last four components are tiny but not zero: every magnitude test on the way from the six
+# ---- values to Ueq shows as a branch event; the result has to be the same straight-line program on either side -------------
+
+def read_flat(t, lits):
+    from shelxfile import Shelxfile
+    text = FILE
+    for n, lit in lits.items():
+        text = text.replace(U_LIT[n], lit, 1)
+    for n, lit in CELL_LIT.items():
+        v = t.literal(lit, n)
+        if n in ('alpha', 'beta', 'gamma'):
+            import symtrace as st
+            c, s = dict(alpha=('ca', 'sa'), beta=('cb', 'sb'), gamma=('cg', 'sg'))[n]
+            rad = st.mk('call', 'radians', v.node)
+            t.table[st.mk('call', 'cos', rad)] = st.mk('var', c)
+            t.table[st.mk('call', 'sin', rad)] = st.mk('var', s)
+    for n, lit in XYZ_LIT.items():
+        t.literal(lit, n)
+    for n in UP:
+        t.literal(lits.get(n, U_LIT[n]), n)
+    shx = Shelxfile()
+    shx.read_string(text)
+    return shx
+
+
+# U33 … U12: absolute values sum to 1e-5 (at the limit under which the writer prints an isotropic line)
+FLAT5 = dict(u33='0.000004', u23='0.000001', u13='-0.000002', u12='0.000003')
+# … sum to 7e-7 (under the limit of set_uvals for 'regular atom')
+FLAT7 = dict(u33='0.0000004', u23='0.0000001', u13='-0.0000001', u12='0.00000010')
+# … sum to 1e-10
+FLAT10 = dict(u33='0.00000000004', u23='0.00000000001', u13='-0.00000000002', u12='0.00000000003')
+
+
+@target('C12', 'atomUeqFlat5', CELLP + UP, doc='Atom.ueq, |U33|+|U23|+|U13|+|U12| = 1e-5', calls=['sqrt'], expect=PARSE_EVENTS)
+def atom_ueq_flat5(t):
+    return list(read_flat(t, FLAT5).atoms)[0].ueq
+
+
+@target('C12', 'atomUeqFlat7', CELLP + UP, doc='Atom.ueq, |U33|+|U23|+|U13|+|U12| = 7e-7', calls=['sqrt'], expect=PARSE_EVENTS)
+def atom_ueq_flat7(t):
+    return list(read_flat(t, FLAT7).atoms)[0].ueq
+
+
+@target('C12', 'atomUeqFlat10', CELLP + UP, doc='Atom.ueq, |U33|+|U23|+|U13|+|U12| = 1e-10', calls=['sqrt'], expect=PARSE_EVENTS)
+def atom_ueq_flat10(t):
+    return list(read_flat(t, FLAT10).atoms)[0].ueq
